@@ -11,8 +11,8 @@ for d in sorted(glob.glob(os.path.join(HERE, "seeded", "*"))):
         continue
     sid = os.path.basename(d)
     runs = m.get("checks_run", {})
-    det = sorted(k.split(":")[0] for k, v in runs.items() if v.get("rc") == 1)
-    err = sorted(k.split(":")[0] for k, v in runs.items() if v.get("rc") == 2)
+    det = sorted(k.split(":")[0] for k, v in runs.items() if v.get("rc") == 1 and v.get("violations", 0) > 0)
+    err = sorted(k.split(":")[0] for k, v in runs.items() if v.get("rc") == 2 or (v.get("rc") == 1 and not v.get("violations", 0)))
     ran = sorted(k.split(":")[0] for k in runs)
     conf = m.get("confirmation", {}).get("confirmed")
     tot += 1
